@@ -61,8 +61,11 @@ def run(rep, tier):
         ('ENTRY-signature', 'public entry points take (text, pos=0, fullparse=True)'),
         ('ENTRY-driver', 'entry points tail-call _run(ctx?, text, pos, impl, fullparse)'),
         ('ENTRY-params', 'an entry point supplies the parameters of the implementation it starts'),
+        ('START-inherited', 'the module-level parse of a sub-grammar without a start of its own starts the nearest '
+                            'inherited start (rule or class)'),
         ('CONV-hashable', 'entry closures are hashable'),
         ('DRIVER-exits', 'success -> _finalize_parse_info(...); failure -> error function called, raise'),
+        ('DRIVER-coordinates', 'the driver never rebinds the text / position / start it was given while rule functions run'),
         ('FINALIZE-exits', 'PartialParseError(nodes, position at pos, excerpt) iff fullparse and pos < len(text); '
                            'otherwise the same value is returned'),
         ('TABLE-index', 'every subscript of the per-index tables is guarded by index < len(text)'),
@@ -76,7 +79,7 @@ def run(rep, tier):
     ]:
         rep.rule(rid, txt)
     found, stats, nmods = routes.run(rep, 'C08', ['ENTRY-', 'CONV-hashable', 'ERR-must-raise', 'ERR-shape', 'FREE-name',
-                                                   'SUBIMPORT-'])
+                                                   'SUBIMPORT-', 'START-inherited'])
     rep.floor('entry points examined', stats['entries'], 150)
     rep.floor('error functions examined', stats['error_functions'], 100)
     call_const = load.call_constant()
@@ -93,6 +96,9 @@ def run(rep, tier):
                     and isinstance(x.comparators[0], ast.Constant):
                 cc = x.comparators[0].value
         roles, tbad, st = trampoline.analyse(fn, cc, uses_ctx, what)
+        for rule, msg in tbad:
+            if rule == 'DRIVER-coordinates':
+                rep.add(Finding(rule, f'{rel}:runtime', '', msg, f'{rel} ({what})'))
         n += finalize.driver_exits(fn, roles, uses_ctx, what, bad)
         n += finalize.finalize_rules(fns, what, bad)
         n += finalize.bytes_safety(fns, what, bad)
